@@ -1700,7 +1700,10 @@ impl<'a, C: Crypto> TransportRunner<'a, C> {
                     packet
                 );
             }
-            Err(e) if matches!(e.code(), ErrorCode::NoSession) => {
+            Err(e)
+                if matches!(e.code(), ErrorCode::NoSession)
+                    && packet.header.plain.is_encrypted() =>
+            {
                 // Per Matter Core spec, when a session-bearing
                 // message arrives for which we have no matching secure session
                 // (e.g. after a reboot has wiped the session table while the
@@ -1709,6 +1712,11 @@ impl<'a, C: Crypto> TransportRunner<'a, C> {
                 // Channel protocol. This nudges the peer to drop its stale
                 // session and re-establish CASE, instead of waiting for MRP
                 // retries to exhaust on its side.
+                //
+                // An unsecured message that belongs to no session (and opens none)
+                // is NOT answered, but dropped below: the report sent here is itself
+                // such a message, so two nodes would otherwise bounce `SessionNotFound`
+                // reports off each other forever.
                 warn!(
                     "\n>>RCV {}\n      => No valid session found, replying with SessionNotFound",
                     packet
@@ -1732,6 +1740,12 @@ impl<'a, C: Crypto> TransportRunner<'a, C> {
 
                 Self::netw_send(send, packet.peer, &packet.buf[packet.payload_start..], true)
                     .await?;
+            }
+            Err(e) if matches!(e.code(), ErrorCode::NoSession) => {
+                mrp_log!(
+                    "\n>>RCV {}\n      => No session for this unsecured message, dropping",
+                    packet
+                );
             }
             Err(e) => {
                 error!("\n>>RCV {}\n      => Error ({:?}), dropping", packet, e);
